@@ -15,7 +15,7 @@ PROFILE = {
     'hostile': 0.5,
     'budget': 5000000,
     'faults': {'F1': 0.3, 'F2': 0.2, 'F3': 0.1, 'F4': 0.2, 'F5': 0.1, 'F6': 0.1, 'F9': 0.0,
-               'reg': 0.06, 'eval': 0.0, 'budget': 0.12},
+               'reg': 0.06, 'eval': 0.0, 'budget': 0.12, 'anticipated': 0.06},
     'judges': ['family'],
 }
 
